@@ -32,10 +32,14 @@ THEOREMS = [
     "C14.chain_union", "C14.chain_hyps_of_pairwise", "C14.sum_chainRose", "C14.chain_volume_is_union", "C14.two_arm_volume_is_union", "C14.lens_inside_frustum",
 ]
 TRUSTED = ["translator (Gen/VolumeTerms.lean: the per-node inclusion–exclusion terms and their accuracy levels, regenerated from analysis/volume.py)",
-           "disc method for the true union volume of collinear trees (profile = max of the parts' profiles)"]
+           "disc method for the true union volume of collinear trees (profile = max of the parts' profiles)",
+           "glue of harness/algo_specs/14b_volfront.py (every key is exact source text; listed in design_notes/session4/volfront.md): the sdflit "
+           "scene of _get_volume_frustum_cone_mc_only is the list of the shapes added to it and its sampling the parameter `mcScene`; volumetric "
+           "objects are immutable terms (class name, obj1, obj2), `x.get_volume()` of an operand / the closed forms / the four np.allclose tests / "
+           "VolMCObject._get_volume are parameters; VolObject.get_volume is the instantiation without keyword arguments"]
 ASSUMPTIONS = [
     "the traversal that accumulates `volume += v` is C04's machine (theorem C04.traverse_eq_spec)",
-    "accuracy level 10 (Monte Carlo only) and the Monte-Carlo cone-pair term at level >= 5 on trees outside the stated class are outside the theorem",
+    "accuracy level 10: the theorem is about WHICH scene is sampled (C14.get_volume_level10), not about the sampler; the Monte-Carlo cone-pair term at level >= 5 on trees outside the stated class is outside the theorem",
     "float32 node data: values compared with relative tolerance 2e-5",
 ]
 
@@ -730,6 +734,10 @@ class VolFront(Suite):
             valid = method == "frustum_cone" and lvl is not None and 0 < lvl <= 10
             if valid != (ans[0] == "ok"):
                 out.append(("front-validation", f"get_volume(method={method!r}, accuracy={acc!r}) -> {ans}"))
+        # the Monte-Carlo-only scene: one sphere per node and one frustum per parent-child pair, nothing else
+        want = sorted([f"S{i}" for i in range(case["tree"]["n"])] + [f"F{p}:{i}" for i, p in enumerate(case["tree"]["pids"]) if p >= 0])
+        if sorted(res.get("scene", [])) != want:
+            out.append(("mc-scene", f"the scene of the Monte-Carlo-only path is {res.get('scene')}, the tree has pids {case['tree']['pids']}"))
         return out
 
 
